@@ -7,6 +7,7 @@ import (
 	"go/printer"
 	"go/token"
 	"go/types"
+	"os"
 	"sort"
 	"strings"
 
@@ -46,6 +47,7 @@ func R22(pkgs ...string) func(p *core.Prog) *core.Result {
 			majorMask(p, r)
 			popOrder(p, r)
 			stepBytesAccounting(p, r)
+			siblingArms(p, r)
 		}
 		lostUpdate(p, r, in)
 		stackInit(p, r, in)
@@ -638,4 +640,214 @@ func stripComments(n ast.Node) ast.Node { return n }
 
 func normalizeWS(s string) string {
 	return strings.Join(strings.Fields(s), " ")
+}
+
+// ---- (g) SIBLING-ARMS (cborl) ----
+//
+// Byte strings and text strings are the same machine twice: a header state
+// with the start flag, a zero-length special case that completes at once, a
+// body state. The two header arms of the dispatcher must have the same effect
+// on the parser's stacks on every kind of outcome (completed at once /
+// suspended / moved on to the body state); a pop of the own length entry that
+// one of them lost, or a zero-length case that only one of them has, shows up
+// as a difference.
+
+type saState struct {
+	disp   int64 // 1 + dispatched state constant
+	d      map[string]int
+	top    bool
+	nonnil valueSet
+}
+type saClient struct {
+	steps map[*ssa.Function]bool
+	c     *r6ctx
+	fn    *ssa.Function
+	tag   string
+	num   *valueNumbering
+	arms  map[int64]map[string]bool
+}
+
+func (k *saClient) Key(s saState) string {
+	return fmt.Sprintf("%d|%s|%v|%s", s.disp, deltaKey(s.d), s.top, s.nonnil.key())
+}
+func (k *saClient) Phis(s saState, blk *ssa.BasicBlock, pred int) saState {
+	for _, in := range blk.Instrs {
+		phi, ok := in.(*ssa.Phi)
+		if !ok {
+			break
+		}
+		if pred >= 0 && pred < len(phi.Edges) {
+			e := phi.Edges[pred]
+			id := k.num.id(phi)
+			s.nonnil = s.nonnil.without(id)
+			if s.nonnil.has(k.num.id(e)) || definitelyNonNilError(e) {
+				s.nonnil = s.nonnil.with(id)
+			}
+		}
+	}
+	return s
+}
+func (s saState) add(f string, d int) saState {
+	n := make(map[string]int, len(s.d)+1)
+	for k, v := range s.d {
+		n[k] = v
+	}
+	n[f] += d
+	if n[f] > 4 || n[f] < -4 {
+		s.top = true
+	}
+	if n[f] == 0 {
+		delete(n, f)
+	}
+	s.d = n
+	return s
+}
+func (k *saClient) Instr(s saState, in ssa.Instruction) (saState, bool, []saState) {
+	c, ok := in.(*ssa.Call)
+	if !ok {
+		return s, true, nil
+	}
+	sc := c.Common().StaticCallee()
+	if sc == nil || len(c.Common().Args) == 0 {
+		return s, true, nil
+	}
+	if (sc.Name() == "push" || sc.Name() == "pop") && sc.Signature.Recv() != nil {
+		if f := fieldOfReceiver(k.fn, c.Common().Args[0]); f != "" && k.c.counters[f] {
+			d := 1
+			if sc.Name() == "pop" {
+				d = -1
+			}
+			return s.add(f, d), true, nil
+		}
+	}
+	if sc.Signature.Recv() != nil && namedOf(sc.Signature.Recv().Type()) == k.c.recv && c.Common().Args[0] == ssa.Value(k.fn.Params[0]) {
+		// reporting the completed value upwards and handing over to a body step are kept as symbols
+		if sc.Name() == "popState" || sc.Name() == "onValue" {
+			return s.add("<value reported to the parent>", 1), true, nil
+		}
+		if k.steps[sc] {
+			return s.add("<body step>", 1), true, nil
+		}
+		sum := k.c.summary(sc)
+		if sum == nil || sum.top {
+			s.top = true
+			return s, true, nil
+		}
+		var outs []saState
+		for _, dk := range sortedKeys(sum.deltas) {
+			ns := s
+			for f, d := range sum.deltas[dk] {
+				ns = ns.add(f, d)
+			}
+			outs = append(outs, ns)
+		}
+		if len(outs) == 0 {
+			return s, true, nil
+		}
+		return outs[0], true, outs[1:]
+	}
+	return s, true, nil
+}
+func (k *saClient) Branch(s saState, cond ssa.Value, outcome bool) (saState, bool) {
+	if bo, ok := cond.(*ssa.BinOp); ok && bo.Op == token.EQL && fieldPath(bo.X) == k.tag {
+		if c, ok := constIntVal(bo.Y); ok && outcome {
+			s.disp = c + 1
+		}
+	}
+	if x, trueMeansNil, ok := nilTest(cond); ok && isErrorType(x.Type()) {
+		isNil := outcome == trueMeansNil
+		if isNil && s.nonnil.has(k.num.id(x)) {
+			return s, false
+		}
+		if !isNil {
+			s.nonnil = s.nonnil.with(k.num.id(x))
+		}
+	}
+	return s, true
+}
+func (k *saClient) Return(s saState, ret *ssa.Return) {
+	if s.disp == 0 {
+		return
+	}
+	if ei := errResultIndex(k.fn.Signature); ei >= 0 {
+		rv := ret.Results[ei]
+		if definitelyNonNilError(rv) || s.nonnil.has(k.num.id(rv)) {
+			return
+		}
+	}
+	if k.arms[s.disp-1] == nil {
+		k.arms[s.disp-1] = map[string]bool{}
+	}
+	v := deltaKey(s.d)
+	if s.top {
+		v = "unbounded"
+	}
+	if v == "" {
+		v = "no stack effect"
+	}
+	k.arms[s.disp-1][v] = true
+}
+
+func siblingArms(p *core.Prog, r *core.Result) {
+	fam, err := buildFamily(p, "cborl")
+	if err != nil {
+		r.Undecided(".SIBLING-ARMS", "cborl", err.Error())
+		return
+	}
+	sp := p.SPkgs["cborl"]
+	ex := p.LookupFunc("cborl", "(*Parser).execStep")
+	cst := func(n string) (int64, bool) {
+		nc, _ := sp.Members[n].(*ssa.NamedConst)
+		if nc == nil {
+			return 0, false
+		}
+		return constIntVal(nc.Value)
+	}
+	mb, ok1 := cst("majorBytes")
+	mt, ok2 := cst("majorText")
+	sx, ok3 := cst("stStartX")
+	if ex == nil || !ok1 || !ok2 || !ok3 {
+		r.Undecided(".SIBLING-ARMS", "cborl.execStep", "dispatcher or the constants majorBytes/majorText/stStartX not found")
+		return
+	}
+	tag := reentryTagPath(fam.feedUntil)
+	if tag == "" {
+		r.Undecided(".SIBLING-ARMS", "cborl.feedUntil|tag", "dispatched state field not recognised")
+		return
+	}
+	ctx := &r6ctx{p: p, recv: fam.recvNamed, counters: discoverCounters(p, fam.recvNamed), sums: map[*ssa.Function]*r6sum{}, busy: map[*ssa.Function]bool{}, opaque: map[*ssa.Function]bool{}}
+	for _, n := range []string{"execStep", "stepValue"} {
+		if f := p.LookupFunc("cborl", "(*Parser)."+n); f != nil {
+			ctx.opaque[f] = true
+		}
+	}
+	steps := map[*ssa.Function]bool{}
+	for f := range fam.steps {
+		steps[f] = true
+	}
+	k := &saClient{steps: steps, c: ctx, fn: ex, tag: tag, num: newNumbering(), arms: map[int64]map[string]bool{}}
+	_, capped := WalkPaths[saState](k, ex.Blocks[0], 0, saState{}, 400000, nil)
+	if capped {
+		r.Undecided(".SIBLING-ARMS", "cborl.execStep|cap", "state cap hit")
+		return
+	}
+	setStr := func(m map[string]bool) string {
+		return "{" + strings.Join(sortedKeys(m), " | ") + "}"
+	}
+	for _, pr := range [][2]int64{{mb | sx, mt | sx}, {mb, mt}} {
+		a, b := k.arms[pr[0]], k.arms[pr[1]]
+		if os.Getenv("SFCHECK_DEBUG") != "" {
+			fmt.Fprintf(os.Stderr, "SIBLING %#x %s ~ %#x %s (arms=%d tag=%s)\n", pr[0], setStr(a), pr[1], setStr(b), len(k.arms), tag)
+		}
+		key := fmt.Sprintf("cborl.(*Parser).execStep|%#x~%#x", pr[0], pr[1])
+		pos := p.Pos(ex.Pos())
+		switch {
+		case len(a) == 0 || len(b) == 0:
+			r.Undecided(".SIBLING-ARMS", key, fmt.Sprintf("no outcome found for the arm of %#x or %#x", pr[0], pr[1]))
+		case setStr(a) == setStr(b):
+			r.Ok(".SIBLING-ARMS", pos, fmt.Sprintf("execStep: the byte-string arm %#x and the text-string arm %#x have the same stack effects %s", pr[0], pr[1], setStr(a)))
+		default:
+			r.Fail(".SIBLING-ARMS", key, pos, fmt.Sprintf("execStep: the byte-string arm %#x has the stack effects %s but its text-string sibling %#x has %s: one of them lost (or gained) a pop of its own length entry or a zero-length case - the entry leaks, or the value only completes when more input arrives", pr[0], setStr(a), pr[1], setStr(b)), "")
+		}
+	}
 }
